@@ -50,6 +50,9 @@ type FieldSpec struct {
 	TV     string // "" = the term-vector option follows the locations; "0"/"1" = stated explicitly
 	Rnd    string // "seed:len" = Val is the pseudo-random byte string of that seed and length
 	Shape  []byte // geo-shape fields: the encoded shape (kept as an extra doc value)
+	// composite fields: the token frequencies are composed from the document's ordinary fields the way
+	// bleve does it (TokenFrequencies.MergeAll), i.e. SHARING the location objects with those fields
+	Compose bool
 }
 
 // rndBytes: the pseudo-random (incompressible) byte string both sides of the transcript agree on:
@@ -220,6 +223,9 @@ func (b *BatchSpec) Lines() []string {
 				if f.TV != "" {
 					l += " tv=" + f.TV
 				}
+				if f.Compose {
+					l += " compose=1"
+				}
 				out = append(out, l)
 			case "fld":
 				val := hx(f.Val)
@@ -350,7 +356,7 @@ func parseBatch(cmds []*Cmd, i int) (*BatchSpec, int, error) {
 			doc = &b.Docs[len(b.Docs)-1]
 			fld = nil
 		case "comp":
-			doc.Fields = append(doc.Fields, FieldSpec{Kind: "comp", Name: c.Pos[0], Len: c.num("len", 0), DV: c.str("dv", "0") == "1", Typ: 'c', TV: c.str("tv", "")})
+			doc.Fields = append(doc.Fields, FieldSpec{Kind: "comp", Name: c.Pos[0], Len: c.num("len", 0), DV: c.str("dv", "0") == "1", Typ: 'c', TV: c.str("tv", ""), Compose: c.str("compose", "0") == "1"})
 			fld = &doc.Fields[len(doc.Fields)-1]
 		case "fld":
 			ap, err := parseU64List(c.str("ap", "-"), ",")
@@ -459,6 +465,15 @@ func (u *Universe) addBatch(b *BatchSpec) {
 			}
 			if u.Fields[f.Name] == nil {
 				u.Fields[f.Name] = map[string]bool{}
+			}
+			if f.Kind == "comp" && f.Compose {
+				for _, g := range d.Fields {
+					if g.Kind == "fld" && g.Name != "_id" {
+						for _, t := range g.Toks {
+							u.Fields[f.Name][string(t.Term)] = true
+						}
+					}
+				}
 			}
 			for _, t := range f.Toks {
 				u.Fields[f.Name][string(t.Term)] = true
